@@ -102,7 +102,7 @@ def prog_constants(p, j=1, max_hist=4, max_cmds=3, unlocked_bug=False, selfdep_p
     d['InitFiles'] = sset([s(x) for x in p['init']])
     d['J'] = str(j)
     d['Cmds'] = sset([rec({'kind': s(c[0]), 'targs': seq([s(t) for t in c[1]]), 'keep': val(bool(c[2])),
-                           'j': str(c[3] if len(c) > 3 else 1)})
+                           'j': str(c[3] if len(c) > 3 else 1), 'cwd': s(c[4] if len(c) > 4 else '')})
                       for c in p['cmds']])
     d['UserFiles'] = sset([s(x) for x in p.get('user', [])])
     d['RmFiles'] = sset([s(x) for x in p.get('rm', [])])
@@ -546,6 +546,19 @@ def alias_prog():
     }
 
 
+def subdirs_cwd():
+    """commands and queries started in a subdirectory of the project: names are relative to it, the project is the
+    nearest ancestor with a .redo directory (created by the first command, which runs at the top)"""
+    p = subdirs()
+    p['name'] = 'subdirs_cwd'
+    p['alias'] = {'sub|x': 'sub/x', 'sub|y': 'sub/y', 'sub|../top': 'top', 'sub|./x': 'sub/x', 'sub|../sub/y': 'sub/y'}
+    p['cmds'] = [('ifchange', ['top'], False, 1, ''), ('ifchange', ['y', '../top'], False, 1, 'sub'),
+                 ('redo', ['./x', '../sub/y'], False, 1, 'sub'), ('targets', [], False, 1, 'sub'), ('ood', [], False, 1, 'sub')]
+    p['doedits'] = []
+    p['bounds'] = (4, 3)
+    return p
+
+
 def symlink_prog():
     """a source that is a symbolic link: editing what it points to, and pointing it elsewhere, must rebuild its
     consumers (the stamp of a link is the link's own stamp plus the stamp of what it points to)"""
@@ -782,7 +795,7 @@ def crash_family(window=False, stamp_window=False):
     return out_
 
 
-FAMILY_DEEP = [alias_prog, fail_kinds, ifcreate_link, symlink_prog, symlink_stamped, nodir_prog, always2, fail_diamond, override2, stamp_toggle, stamped_deep, ifcreate_deep, do_recreate, subdirs, fan_shared, fail_memo]
+FAMILY_DEEP = [subdirs_cwd, alias_prog, fail_kinds, ifcreate_link, symlink_prog, symlink_stamped, nodir_prog, always2, fail_diamond, override2, stamp_toggle, stamped_deep, ifcreate_deep, do_recreate, subdirs, fan_shared, fail_memo]
 
 
 def deep_programs():
